@@ -4,10 +4,14 @@
 
      tmon  a timer is activated once per interval (the (n+1)-th activation is the one due at
            creation + (n+1) * interval), never before it is due (due <= the time the loop
-           sampled) and in order of due time (no live timer has an earlier due time);
+           sampled) and in order of due time (no live timer has an earlier due time); the
+           loop never sleeps past a due time: when it waits with time-out t after having
+           sampled the clock at now, no live timer is due before now + t;
      rmon  object life times and registrations: a callback is only given to a live object, a
            removed object is unregistered and its identity is never seen again (so it never
-           receives another callback); every dispatched event kind is one the object is
+           receives another callback) - also a client removed from inside the very
+           onAccepted/onConnected that announces it (its registration is withdrawn when that
+           callback returns, whatever it returns); every dispatched event kind is one the object is
            registered for at that moment (onRead: read interest; a send from the loop: write
            interest; accept: accept interest; the SO_ERROR query: the connect interest that
            was withdrawn just before);
@@ -61,7 +65,8 @@ Inductive ev :=
 | EvSoErr (i err : Z)
 | EvCreated (e : ent) (t iv : Z)          (* an object is created (timers: clock value, interval) *)
 | EvRemoved (e : ent)                     (* remove() returned and the object is gone *)
-| EvDeferred (e : ent)                    (* remove() of a client that is being announced (no callback object yet) *)
+| EvDeferred (e : ent)                    (* remove() returned for the client that is being announced right now (from inside its onAccepted/onConnected) *)
+| EvSel (l : list (ent * Z))              (* internal structure: the selected-but-undelivered events of the Poll object, in order (no monitor looks at it) *)
 | EvWrote (i : Z) (ok : bool) (postponed : Z)
 | EvRead (i : Z) (ok : bool)
 | EvSkip                                  (* action not applicable (dead or duplicate id) *)
@@ -115,6 +120,8 @@ Definition tmon_step (m : tmon) (e : ev) : option tmon :=
           else None
       | None => None
       end
+  | EvWait t =>
+      if forallb (fun x => tm_now m + t <=? tm_due (snd x)) (tm_tab m) then Some m else None
   | _ => Some m
   end.
 
@@ -170,10 +177,12 @@ Definition rmon_step (m : rmon) (e : ev) : option rmon :=
   | EvIntroRet i acc =>
       if r_alive m (Cl i) then
         (if acc then Some (r_plain m) else Some (r_del (Cl i) m))
+      else if emem (Cl i) (r_seen m) then Some (r_plain m)     (* it was removed by the callback that announced it *)
       else None
   | EvRemoved x =>
       if r_alive m x && negb (reg_has m x (fun _ => true)) then Some (r_del x m) else None
-  | EvDeferred x => if r_alive m x then Some (r_plain m) else None
+  | EvDeferred (Cl i) => if r_alive m (Cl i) then Some (r_del (Cl i) m) else None     (* gone like any removed object *)
+  | EvDeferred _ => None
   | EvAct t _ _ => if r_alive m (Tm t) then Some (r_plain m) else None
   | EvCb x k _ =>
       if r_alive m x &&
@@ -229,7 +238,7 @@ Definition cmon_step (m : cmon) (e : ev) : option cmon :=
       | EvSend i _ r false => Some (if failed_io r then mkCm (i :: c_owed m) None else m)
       | EvSend i _ r true => if is_nil (c_owed m) then Some (if failed_io r then mkCm (c_owed m) (Some i) else m) else None
       | EvCb (Cl i) KClosed _ => Some (mkCm (zremove_all i (c_owed m)) None)
-      | EvRemoved (Cl i) => Some (mkCm (zremove_all i (c_owed m)) None)
+      | EvRemoved (Cl i) | EvDeferred (Cl i) => Some (mkCm (zremove_all i (c_owed m)) None)
       | EvIntroRet i false => Some (mkCm (zremove_all i (c_owed m)) None)
       | EvWait _ | EvRunRet | EvAccept _ _ | EvSoErr _ _ | EvCb _ KRead _ =>
           if is_nil (c_owed m) then Some m else None
